@@ -838,6 +838,16 @@ inline vf::CaseResult run_scenario(const Profile& pf, const Scenario& sc, const 
                 roots_before[e.key.substr(0, 8 * d)] = e.layer_root;
             }
         }
+        // trigger of the open finding C10/cursor_layer_root_replaced_skip for a key: the root node of the layer (>= 1) that holds
+        // the key, as recorded before the run, lost its root flag (root split) or is a deleted interior (collapsed)
+        auto layer_root_replaced = [&roots_before](const std::string& key) {
+            if (key.size() <= 8) { return false; }
+            std::size_t d = (key.size() - 1) / 8;
+            auto it = roots_before.find(key.substr(0, 8 * d));
+            if (it == roots_before.end() || it->second == nullptr) { return false; }
+            node_version64_body rv = it->second->get_version();
+            return (!rv.get_root() && !rv.get_deleted()) || (rv.get_deleted() && !rv.get_border());
+        };
         // ---- scheduled run
         Exec ex(sc);
         std::vector<std::function<void()>> bodies;
@@ -850,6 +860,7 @@ inline vf::CaseResult run_scenario(const Profile& pf, const Scenario& sc, const 
         sched::Outcome oc = S.run(std::move(bodies), rb);
         if (oc == sched::Outcome::Released) {
             res.inconclusive = true;
+            if (std::getenv("VF_DEBUG_INCONCLUSIVE") != nullptr) { std::fprintf(stderr, "INCONCLUSIVE (step budget)\n%s", sc.text().c_str()); }
             reset_library();
             return res;
         }
@@ -1035,7 +1046,8 @@ inline vf::CaseResult run_scenario(const Profile& pf, const Scenario& sc, const 
                         if (removed_again) { continue; }
                         if (h.inv < r.resp && r.inv < h.resp) { insert_overlapped_scan = true; }
                         if (got.count(h.key) == 0 && !stale) {
-                            failx(cursor && start_tuple_conflict(sc, o, h.key) ? "cursor_start_tuple_inserted" : "insert_neither_seen_nor_stale", "insert of \"" + show(h.key) + "\" (T" + std::to_string(h.thread) + ") is not in the " +
+                            failx(cursor && start_tuple_conflict(sc, o, h.key) ? "cursor_start_tuple_inserted"
+                                          : (cursor && layer_root_replaced(h.key) ? "cursor_layer_root_replaced_skip" : "insert_neither_seen_nor_stale"), "insert of \"" + show(h.key) + "\" (T" + std::to_string(h.thread) + ") is not in the " +
                                                                          (cursor ? "cursor" : "scan") + " result and every recorded node version is unchanged (recorded=" +
                                                                          std::to_string(r.nvv.size()) + ")");
                         }
@@ -1090,15 +1102,7 @@ inline vf::CaseResult run_scenario(const Profile& pf, const Scenario& sc, const 
                 if (h.key == bad_key && h.note == "cursor-skip") { cursor_skip = true; }
             }
             if (has_pseudo) { sig = cursor_skip ? "cursor_inconsistent" : "scan_inconsistent"; }
-            if (cursor_skip && bad_key.size() > 8) {
-                // open finding: root of the cursor's layer (>= 1) replaced during the run
-                std::size_t d = (bad_key.size() - 1) / 8;
-                auto it = roots_before.find(bad_key.substr(0, 8 * d));
-                if (it != roots_before.end() && it->second != nullptr) {
-                    node_version64_body rv = it->second->get_version();
-                    if ((!rv.get_root() && !rv.get_deleted()) || (rv.get_deleted() && !rv.get_border())) { sig = "cursor_layer_root_replaced_skip"; }
-                }
-            }
+            if (cursor_skip && layer_root_replaced(bad_key)) { sig = "cursor_layer_root_replaced_skip"; }
             failx(sig, "key \"" + show(bad_key) + "\": " + lz);
         }
         // ---- quiescent coherence + structure (C08, C09)
